@@ -13,6 +13,7 @@ import sys
 import time
 
 PY = "/venv/bin/python"
+BASE = os.path.dirname(os.path.dirname(os.path.abspath(__file__)))  # the /verif tree this tool belongs to (a vp-run snapshot uses its own code)
 PROPS = ["C02", "C03", "C07", "C08", "C09", "C10", "C11", "C12", "C13", "C15", "C16", "C18", "C20"]
 
 
@@ -25,8 +26,8 @@ def main():
     scale = arg("--scale", "0.1")
     only = arg("--only")
     checks = (arg("--checks") or ",".join(PROPS)).split(",")
-    out_path = arg("--out", "/verif/seeded/cross_matrix.json")
-    names = sorted(d for d in os.listdir("/verif/seeded") if os.path.isdir(f"/verif/seeded/{d}"))
+    out_path = arg("--out", os.path.join(BASE, "seeded", "cross_matrix.json"))
+    names = sorted(d for d in os.listdir(os.path.join(BASE, "seeded")) if os.path.isdir(os.path.join(BASE, "seeded", d)))
     if only:
         names = [n for n in names if n in only.split(",")]
     matrix = {}
@@ -38,7 +39,7 @@ def main():
         shutil.rmtree(wt, ignore_errors=True)
         sh(["git", "-C", "/repo", "worktree", "add", "-q", "--detach", wt, "HEAD"])
         try:
-            r = sh(["git", "-C", wt, "apply", f"/verif/seeded/{name}/patch.diff"])
+            r = sh(["git", "-C", wt, "apply", os.path.join(BASE, "seeded", name, "patch.diff")])
             if r.returncode != 0:
                 print(name, "patch does not apply", r.stderr[:200])
                 continue
@@ -47,7 +48,7 @@ def main():
                 env = dict(os.environ, VERIF_REPO=wt, VERIF_SCALE=scale, VERIF_NO_RESAMPLE="1",
                            VERIF_EVIDENCE_DIR=wt + "_ev", VERIF_REPLAY_DIR=wt + "_rp")
                 t0 = time.monotonic()
-                p = sh([PY, "-m", "dst", "check", c, "--tier", "quick"], cwd="/verif", env=env, timeout=7200)
+                p = sh([PY, "-m", "dst", "check", c, "--tier", "quick"], cwd=BASE, env=env, timeout=7200)
                 kinds = sorted({ln.strip().split(":")[0] for ln in p.stdout.splitlines() if ln.startswith("  ") and ": {" in ln})
                 row[c] = {"rc": p.returncode, "kinds": kinds, "s": round(time.monotonic() - t0, 1)}
                 if p.returncode == 2:
